@@ -954,3 +954,6 @@ _add_family(globals(), _os, 'onceset', _os.oracle, share=0.02)
 # the `_divide` update handed in is not modified (F43)
 from harness import composerdiv as _cdv                 # noqa: E402
 _add_family(globals(), _cdv, 'composerdiv', _cdv.oracle, share=0.01)
+# the updater one instance's override names is that instance's alone (processes sharing a schema object)
+from harness import schemaleak as _sl                   # noqa: E402
+_add_family(globals(), _sl, 'schemaleak', lambda case, impl: _sl.oracle(case, impl, who=('values',)), share=0.01)
